@@ -52,7 +52,8 @@ ExpComparable(x, cls) == {e \in ToSet(x) : e[2] \notin ExportIdKeys(cls)}
 \* is not one of the enclosing blocks
 RECURSIVE LastName(_)
 LastName(p) == IF Len(p) = 0 THEN "" ELSE IF p[Len(p)] \in Idx THEN LastName(SubSeq(p, 1, Len(p) - 1)) ELSE p[Len(p)]
-StructKeys == {"entity", "hidden", "solid", "side", "dispinfo", "connections", "editor", "visgroup"} \cup Idx
+StructKeys == {"entity", "hidden", "solid", "side", "dispinfo", "connections", "editor", "visgroup",
+               "group", "camera", "cordon", "box", "fixups"} \cup Idx
 RECURSIVE FirstKey(_)
 FirstKey(p) == IF Len(p) = 0 THEN "" ELSE IF p[1] \in StructKeys THEN FirstKey(Tail(p)) ELSE p[1]
 \* one verdict per place (not per element)
